@@ -395,6 +395,25 @@ static carquet_reader_t* open_mode(int mode, const char* path, const uint8_t* da
     return carquet_reader_open_buffer(b, n, &o, e);
 }
 
+/* The second calling convention the API allows: no error record (error == NULL) and, where no option is
+ * needed, no options (options == NULL).  Returns 1 when the open succeeded; the reader is closed again. */
+static int open_mode_noerr(int mode, const char* path, const uint8_t* data, size_t n) {
+    carquet_reader_t* r;
+    uint8_t* b = NULL;
+    if (mode == 0) r = carquet_reader_open(path, NULL, NULL);
+    else if (mode == 1) { carquet_reader_options_t o; carquet_reader_options_init(&o); o.use_mmap = true; r = carquet_reader_open(path, &o, NULL); }
+    else {
+        b = malloc(n ? n : 1);
+        if (n) memcpy(b, data, n);
+        if (n == 0) { free(b); b = malloc(0); }
+        r = carquet_reader_open_buffer(b, n, NULL, NULL);
+    }
+    int ok = r != NULL;
+    if (r) carquet_reader_close(r);
+    free(b);
+    return ok;
+}
+
 /* ------------------------------------------------------------------------------------------ exercising a reader
  * The caller sizes its buffers from what the library says about the column: the schema element the
  * library itself maps the column to (reader->schema->leaf_indices).  */
@@ -469,6 +488,11 @@ static void ex_metadata(carquet_reader_t* r, stats_t* st) {
             if (c) { BAD(st, 3); carquet_column_reader_free(c); }
             else { if (!err_ok(&e)) BAD(st, 4); note_err(st, (int)e.code); }
             (void)rg_in;
+        }
+        {   /* no error record: must still be NULL for an out-of-range index, without a crash */
+            carquet_column_reader_t* c0 = carquet_reader_get_column(r, probes[k], nc, NULL);
+            st->calls++;
+            if (c0) { BAD(st, 15); carquet_column_reader_free(c0); }
         }
         if (!(probes[k] >= 0 && probes[k] < nrg)) {
             carquet_error_t e = CARQUET_ERROR_INIT;
@@ -768,6 +792,11 @@ static void cuts_child(void* vctx, FILE* out) {
                 codes[mode] = err_ok(&e) ? (int)e.code : -1;     /* -1: failure without a proper error */
             }
             free(keep);
+            /* the same open without an error record (and without options): same verdict, no crash */
+            if (g_prog) g_prog->c = 1;
+            int ok2 = open_mode_noerr(mode, cx->tmp, full, (size_t)cut);
+            if (g_prog) g_prog->c = -1;
+            if (ok2 != (codes[mode] == 0)) codes[mode] = -2;     /* -2: the two calling conventions disagree */
         }
         fprintf(out, " %ld:%d,%d,%d", cut, codes[0], codes[1], codes[2]);
     }
@@ -910,8 +939,16 @@ static void read_child(void* vctx, FILE* out) {
     if (cx->mode == 2) { data = read_file(cx->path, &n); if (!data) { fprintf(out, "ERR cannot-read"); return; } }
     carquet_error_t e = CARQUET_ERROR_INIT;
     uint8_t* keep;
+    if (g_prog) g_prog->a = 0;
+    int ok_noerr;
+    {   /* calling convention without an error record / options */
+        size_t n2 = n; uint8_t* d2 = data;
+        if (cx->mode != 2) { d2 = NULL; n2 = 0; }
+        ok_noerr = open_mode_noerr(cx->mode, cx->path, d2, n2);
+    }
     if (g_prog) g_prog->a = 1;
     carquet_reader_t* r = open_mode(cx->mode, cx->path, data, n, &keep, &e);
+    if ((r != NULL) != (ok_noerr != 0)) { fprintf(out, "BADERR conventions-disagree noerr=%d err=%d ", ok_noerr, r != NULL); }
     free(data);
     if (!r) {
         fprintf(out, "%s open=%d", err_ok(&e) ? "ERR" : "BADERR", (int)e.code);
